@@ -32,11 +32,11 @@ inductive View where
   deriving DecidableEq, Repr
 
 /-- which string a view feeds to the aliaser.  `gqlOutUsesName` is the defect of row 16 (the GraphQL output builder
-    used `field.name`); `depReqPlain` is row 23 (`dependentRequired` keys are plain `str`, so a dynamic aliaser does not
-    reach them) -/
+    used `field.name`); `depReqPlain` is row 23 (`dependentRequired` keys were plain `str`, so a dynamic aliaser did not
+    reach them; repaired: they are `AliasedStr` like the keys of `properties`) -/
 structure Quirks where
   gqlOutUsesName : Bool := false
-  depReqPlain : Bool := true
+  depReqPlain : Bool := false
 
 def viewName (q : Quirks) (dyn : String → String) (cls : Option (String → String)) (v : View) (f : Fld) : String :=
   match v with
@@ -64,6 +64,19 @@ theorem C11_views_agree (q : Quirks) (hq : q.gqlOutUsesName = false) (dyn : Stri
     names q dyn cls v fs = names q dyn cls w fs := by
   rw [C11_views q hq dyn cls v hv, C11_views q hq dyn cls w hw]
 
+/-- **C11, every view.** With both repairs, every view - `dependentRequired` included - lists exactly the external
+    names, for every aliaser function, class aliaser and field list. -/
+theorem C11_all_views (q : Quirks) (hq : q.gqlOutUsesName = false) (hd : q.depReqPlain = false) (dyn : String → String)
+    (cls : Option (String → String)) (v : View) (fs : List Fld) :
+    names q dyn cls v fs = fs.map (extName dyn cls) := by
+  unfold names
+  apply List.map_congr_left
+  intro f _
+  cases v <;> simp [viewName, extName, storedAlias, hq, hd]
+
+/-- the tree's quirks record is the repaired one -/
+example : ({} : Quirks).gqlOutUsesName = false ∧ ({} : Quirks).depReqPlain = false := ⟨rfl, rfl⟩
+
 /-- `dependentRequired` follows the other views exactly when the dynamic aliaser is the identity on the stored
     aliases (row 23: a dynamic aliaser renames `properties` but not `dependentRequired`) -/
 theorem C11_dependentRequired_partial (q : Quirks) (dyn : String → String) (cls : Option (String → String)) (fs : List Fld)
@@ -76,10 +89,10 @@ theorem C11_dependentRequired_partial (q : Quirks) (dyn : String → String) (cl
   simp only [viewName, extName, storedAlias] at this ⊢
   split <;> simp_all
 
-/-- row 23, witness: under `str.upper` as dynamic aliaser the property is renamed, the `dependentRequired` key is not -/
+/-- row 23 (before the repair), witness: under `str.upper` as dynamic aliaser the property is renamed, the `dependentRequired` key is not -/
 theorem C11_dependentRequired_counterexample :
-    names {} (fun s => if s = "a" then "A" else s) none .dependentRequired [{ name := "a" }]
-      ≠ names {} (fun s => if s = "a" then "A" else s) none .deserSchemaProps [{ name := "a" }] := by
+    names { depReqPlain := true } (fun s => if s = "a" then "A" else s) none .dependentRequired [{ name := "a" }]
+      ≠ names { depReqPlain := true } (fun s => if s = "a" then "A" else s) none .deserSchemaProps [{ name := "a" }] := by
   decide
 
 /-- row 16, witness: with the defect, an aliased field has two external names -/
